@@ -68,3 +68,19 @@ seed('S-c09b', 'C09', 'codegen.rs: `__done = true` skipped when the end-of-input
 seed('S-c03b', 'C03', 'codegen.rs generate_state_arms keeps a match arm for single-predecessor states targeted by an end-of-input transition while renumber_state still counts them as inlined',
      'a rule in which `$` is followed by something nullable, e.g. \';\' (\'\\n\' | $) \' \'?, placed right before the next rule set: switch() lands in the wrong state', [], ['C03'],
      'NOT DETECTED and outside the claim for the same reason as S-c09b (`$` not at the tail of the rule); with well-formed definitions the end-of-input target is always a terminal state and the changed code path is never generated')
+seed('S-c07b', 'C07', 'codegen.rs: reset_accepting_state() moved into the Return branch (fourth independent occurrence of the stale-saved-match mechanism)',
+     'a continuing rule whose proper prefix is another rule, then a lexeme through a right-context rule whose context fails: a token remembered from the earlier lexeme is returned instead of InvalidToken', ['C07'], [], '')
+seed('S-c08b', 'C08', 'reset of the match on the error path moved into Lexer::backtrack as `current_match_end = current_match_start` (end moved back instead of start moved forward)',
+     'failure through backtrack() with no saved match, then more input: all later locations lag by the length of the failed text', ['C08'], [], 'post-state: match start/end after the call')
+seed('S-c06c', 'C06', 'Lexer::next: characters below U+1100 are counted as one column without looking up their width',
+     'a zero-width character below U+1100 (combining marks) followed by a location on the same line', ['C06'], [],
+     'the display width is an uninterpreted function in the solver; counterexamples are refined with the real unicode-width answers of their characters so that they replay natively. The first run also exposed a runaway worker (thousands of location mismatches): the number of counterexamples per definition is now capped and the time budget is enforced in the comparison loop')
+seed('S-c09c', 'C09', 'Lexer::next: byte index advanced by `if char <= U+0080 { 1 } else { len_utf8 }` (U+0080 takes two bytes)',
+     'input containing exactly U+0080 and an action that calls match_(): str indexing panics inside next()', ['C09', 'C06'], [],
+     'C06 catches the wrong byte index at once; C09 caught the panic after the &str location definitions got a word-like rule whose action reads match_()')
+seed('S-c03c', 'C03', 'simplify.rs: rule-set entry indices are shifted by the number of transition-less states before them, which also counts the (kept) entry state of an empty rule set',
+     'an empty rule set declared before another rule set and a switch to the later one', ['C03'], [],
+     'first run missed it: the family had no empty rule sets and a wrong entry shows only as behaviour of another rule set. Added empty rule sets (random + systematic family) and the attribution "token of a rule set that is not active => ruleset aspect"; the reference was corrected to let the entry state of an empty rule set read one character')
+seed('S-c10c', 'C10', 'codegen.rs: `re,` rules are run inline on the accepting-transition path without restoring __state = __initial_state',
+     'a `re,` rule whose match runs through a loop state and ends in a terminal accepting state, e.g. # [0-9]+ ; ,', ['C10'], [],
+     'caught after adding the sugar family (sugar forms on looping regexes, in Init and in another rule set)')
